@@ -127,6 +127,18 @@ theorem iter_facts (cfg : Cfg) (bs : Nat) (ok more : Nat → Bool) (s : LoopSt)
     unfold keysOf at hk; simp at hk
     obtain ⟨c, ⟨hc, hv⟩, rfl⟩ := hk
     exact ⟨c, h5 c hc, hv, rfl⟩
+  have hacc : ∀ (st : St) (c n : Nat) (g a : Bool), (account cfg more st c n g a).2.2 = [] ∨
+      ∃ x y, (account cfg more st c n g a).2.2 = [Ev.cb x y] := by
+    intro st c n g a
+    unfold account
+    cases g with
+    | false => left; rfl
+    | true =>
+      generalize (if cfg.hasReady = true then ({ st with readyCalls := st.readyCalls + 1 } : St) else st) = st0
+      simp only [Bool.not_true, Bool.false_eq_true, if_false]
+      by_cases hc : (st0.cbLive && decide (st0.cnt + n ≥ cfg.thr)) = true
+      · right; simp [hc]
+      · left; simp [hc]
   refine ⟨taken, ?_⟩
   unfold iter
   simp only [hkeys]
@@ -137,18 +149,19 @@ theorem iter_facts (cfg : Cfg) (bs : Nat) (ok more : Nat → Bool) (s : LoopSt)
     have := hann1 c hc hv
     simp [List.isEmpty_iff.1 he] at this
   · simp only [he, Bool.false_eq_true, if_false]
-    split
-    · exact ⟨h1, h4, h7, h8, hcids, by rw [hdp.1]; exact hann1, by rw [hdp.1]; exact hann2,
-        fun ks hks => Nat.le_trans (hdp.2.1 ks hks) hlen⟩
-    · split
-      · refine ⟨h1, h4, h7, h8, hcids, ?_, ?_, ?_⟩
-        · rw [announced_append, hdp.1]; intro c hc hv; simp [hann1 c hc hv]
-        · rw [announced_append, hdp.1]; simpa [announced] using hann2
-        · intro ks hks
-          simp at hks
-          exact Nat.le_trans (hdp.2.1 ks hks) hlen
-      · exact ⟨h1, h4, h7, h8, hcids, by rw [hdp.1]; exact hann1, by rw [hdp.1]; exact hann2,
-          fun ks hks => Nat.le_trans (hdp.2.1 ks hks) hlen⟩
+    have hcb := hacc s.st s.cbCalls (keysOf cfg.al added).length
+      (doProvideMany cfg.many ok s.calls (keysOf cfg.al added)).2.2 (readBatch bs s.rest s.cids).2.2
+    have hann : announced ((doProvideMany cfg.many ok s.calls (keysOf cfg.al added)).1 ++
+        (account cfg more s.st s.cbCalls (keysOf cfg.al added).length
+          (doProvideMany cfg.many ok s.calls (keysOf cfg.al added)).2.2 (readBatch bs s.rest s.cids).2.2).2.2) =
+        keysOf cfg.al added := by
+      rw [announced_append, hdp.1]
+      rcases hcb with h | ⟨x, y, h⟩ <;> simp [h, announced]
+    refine ⟨h1, h4, h7, h8, hcids, by rw [hann]; exact hann1, by rw [hann]; exact hann2, ?_⟩
+    intro ks hks
+    rcases List.mem_append.1 hks with hks | hks
+    · exact Nat.le_trans (hdp.2.1 ks hks) hlen
+    · rcases hcb with h | ⟨x, y, h⟩ <;> simp [h] at hks
 
 /-! ### the loop -/
 
@@ -157,11 +170,7 @@ theorem iter_rest (cfg : Cfg) (bs : Nat) (ok more : Nat → Bool) (s : LoopSt) :
     (iter cfg bs ok more s).2.2 = (readBatch bs s.rest s.cids).2.2 := by
   unfold iter
   simp only []
-  split
-  · simp
-  · split
-    · simp
-    · split <;> simp
+  split <;> simp
 
 /-- with a positive batch size every iteration that does not end the loop consumes at least one key:
 `rest.length + 1` iterations always suffice -/
@@ -427,4 +436,69 @@ theorem prioParts_length : ∀ (streams : List (Option (List Cid))) (visited : L
   induction streams with
   | nil => intro v; simp [prioParts]
   | cons st r ih => intro v; cases st <;> simp [prioParts, ih]
+/-! ### statistics (router that never fails) -/
+
+theorem provideEach_allok : ∀ (keys : List Key) (i : Nat),
+    (provideEach (fun _ => true) i keys).2.2 = true := by
+  intro keys
+  induction keys with
+  | nil => intro i; rfl
+  | cons k r ih => intro i; simp [provideEach, ih]
+
+theorem account_total (cfg : Cfg) (more : Nat → Bool) (st : St) (c n : Nat) (a : Bool) :
+    (account cfg more st c n true a).1.total = st.total + n ∧
+    announced (account cfg more st c n true a).2.2 = [] := by
+  unfold account
+  cases cfg.hasReady <;> simp <;> split <;> simp [announced]
+
+theorem iter_total (cfg : Cfg) (bs : Nat) (more : Nat → Bool) (s : LoopSt)
+    (hinv : ∀ c ∈ s.cids, valid cfg.al c = false) (hsingle : cfg.many = false → bs ≤ 1) :
+    (iter cfg bs (fun _ => true) more s).1.st.total =
+      s.st.total + (announced (iter cfg bs (fun _ => true) more s).2.1).length := by
+  obtain ⟨taken, added, h1, h2, h3, h4, h5, h6, h7, h8⟩ := readBatch_spec bs s.rest s.cids
+  have hkeys : keysOf cfg.al (readBatch bs s.rest s.cids).2.1 = keysOf cfg.al added := by
+    rw [h2]; exact keysOf_append_invalid hinv
+  have hlen : (keysOf cfg.al added).length ≤ bs := by
+    have := keysOf_length_le cfg.al added; omega
+  have hdp := doProvideMany_facts cfg.many (fun _ => true) s.calls (keysOf cfg.al added)
+    (fun h => by have := hsingle h; omega)
+  have hgood : (doProvideMany cfg.many (fun _ => true) s.calls (keysOf cfg.al added)).2.2 = true := by
+    unfold doProvideMany; split
+    · rfl
+    · exact provideEach_allok _ _
+  unfold iter
+  simp only [hkeys]
+  by_cases he : (keysOf cfg.al added).isEmpty = true
+  · simp [he, announced]
+  · simp only [he, Bool.false_eq_true, if_false, hgood]
+    have ha := account_total cfg more s.st s.cbCalls (keysOf cfg.al added).length (readBatch bs s.rest s.cids).2.2
+    rw [announced_append, hdp.1, ha.2, ha.1]
+    simp
+
+theorem loop_total (cfg : Cfg) (bs : Nat) (more : Nat → Bool) (hsingle : cfg.many = false → bs ≤ 1) :
+    ∀ (fuel : Nat) (s s' : LoopSt) (evs : List Ev), (∀ c ∈ s.cids, valid cfg.al c = false) →
+      loop cfg bs (fun _ => true) more fuel s = some (s', evs) →
+      s'.st.total = s.st.total + (announced evs).length := by
+  intro fuel
+  induction fuel with
+  | zero => intro s s' evs _ h; simp [loop] at h
+  | succ fuel ih =>
+    intro s s' evs hinv h
+    have ht := iter_total cfg bs more s hinv hsingle
+    obtain ⟨taken, _, _, _, _, h5, _, _, _⟩ := iter_facts cfg bs (fun _ => true) more s hinv hsingle
+    unfold loop at h
+    simp only [] at h
+    by_cases hall : (iter cfg bs (fun _ => true) more s).2.2 = true
+    · simp only [hall, if_true, Option.some.injEq, Prod.mk.injEq] at h
+      obtain ⟨rfl, rfl⟩ := h
+      exact ht
+    · simp only [hall, Bool.false_eq_true, if_false] at h
+      cases hl : loop cfg bs (fun _ => true) more fuel (iter cfg bs (fun _ => true) more s).1 with
+      | none => simp [hl] at h
+      | some r =>
+        simp only [hl, Option.some.injEq, Prod.mk.injEq] at h
+        obtain ⟨rfl, rfl⟩ := h
+        have := ih _ r.1 r.2 h5 hl
+        rw [this, ht, announced_append]
+        simp; omega
 end C44
